@@ -130,7 +130,7 @@ def build_harness(name, variant="plain", sources=None, extra=None, deps=None, in
     d = lib_dir(variant)
     exe = os.path.join(d, "h_" + name)
     srcs = [os.path.join(HARNESS, s) for s in (sources or [name + ".cpp"])]
-    hdrs = [os.path.join(HARNESS, f) for f in os.listdir(HARNESS) if f.endswith((".hpp", ".h")) or (f.endswith(".cpp") and name == "replay_history")]
+    hdrs = [os.path.join(HARNESS, f) for f in os.listdir(HARNESS) if f.endswith((".hpp", ".h")) or (f.endswith(".cpp") and name in ("replay_history", "replay_heap"))]
     gen = os.path.join(d, "gen")
     if os.path.isdir(gen):
         hdrs += [os.path.join(gen, f) for f in os.listdir(gen)]
